@@ -1,5 +1,5 @@
 import sys, os, shutil, subprocess, json, re
-sys.path.insert(0, '/tmp/kgdev')
+sys.path.insert(0, '/verif/py')
 import kernelgen
 LW = '/tmp/leanwork2'
 res = {}
